@@ -52,7 +52,8 @@ def run(tier, seed, work, replay):
         h["requests"] += 1
         h["redirected"] += 1 if e["out"]["redirected"] else 0
         h["kept"] += 1 if e["out"]["redirected"] and not e["out"]["profile"] else 0
-        h["notes"] += 1 if e["out"].get("note") else 0
+        # (the second event of a row - the destination field of a failure page - says so in its note: not a driver problem)
+        h["notes"] += 1 if e["out"].get("note") and "destination-field-of-the" not in e["out"]["note"] else 0
     res.cov["per_handler"] = per
     dead = [h for h in BOUND if per.get(h, {}).get("kept", 0) == 0 or per[h]["notes"] > 0]
     if dead:
